@@ -25,7 +25,7 @@ E == Rec[l]
 NoCfg == [cap |-> Unb, strat |-> "restart", stream |-> FALSE, tmo |-> 0, failto |-> FALSE, owning |-> FALSE,
           sscr |-> <<>>, pscr |-> <<>>, fscr |-> <<>>, ty |-> "0", items0 |-> 0, ended0 |-> FALSE, iscr |-> <<>>]
 OpOf(r) == [op |-> r.op, h |-> r.h, nh |-> r.nh, a |-> r.a, scr |-> r.scr, d |-> r.d, to |-> r.to,
-            ty |-> r.ty, nh2 |-> r.nh2,
+            ty |-> r.ty, nh2 |-> r.nh2, h2 |-> r.h2,
             cfg |-> IF "cfg" \in DOMAIN r THEN r.cfg ELSE NoCfg]
 
 CanStep(t) == TaskCanStepW(t, FALSE)
@@ -45,8 +45,11 @@ T_Pick == /\ IsEvent("pick")
 T_Block == /\ IsEvent("block")
            /\ LET t == E.task IN
               /\ G("blk.cur", cur = t)
-              \* the real task is suspended: the spec's must be too
-              /\ IF yl \/ ~CanStep(t) THEN TRUE
+              \* the real task is suspended: the spec's must be too.  Exception: a task queued for the registry
+              \* lock - async-lock wakes one waiter per release and lets a waiter that has been starved for
+              \* 500us of wall-clock time go first, so a waiter may stay suspended although the lock is free
+              \* (quiescence is strict again: there no waiter may be left behind)
+              /\ IF yl \/ ~CanStep(t) \/ (t \in Tasker /\ cli[t].stage = "reglock") THEN TRUE
                  ELSE IF t \in Client THEN G("blk." \o cli[t].stage, FALSE)
                  ELSE IF t \in DOMAIN tmr THEN G("blk.timer", FALSE)
                  ELSE IF act[t].pc = "idle" THEN G(IF act[t].mq = <<>> THEN "blk.loop.closed" ELSE "blk.loop.deq", FALSE)
@@ -67,7 +70,7 @@ T_Exit == /\ IsEvent("exit")
 
 T_Yield == /\ IsEvent("yield")
            /\ LET t == E.task IN
-              IF E.tag = "script"
+              IF E.tag = "script" \/ t \in Actor     \* (an actor's registry.* yield starts a nested Context::subscribe / publish)
               THEN /\ G("y.cur", cur = t /\ t \in Actor)
                    /\ G("y.script", IsYieldStep(t))
                    /\ RunLoop(t)
@@ -179,6 +182,7 @@ T_Eff == /\ IsEvent("eff")
             /\ G("eff.kind", CurEff(a).e = E.e /\ CurEff(a).n = E.n)
             /\ (E.e \in {"ctx_stop", "ctx_restart"} => G("eff.ctx", (E.res = "ok") <=> CtxSubmitOk(a)))
             /\ (E.e \in TimerKinds => G("eff.timer", CurEff(a).s = E.s))
+            /\ (E.e \in ViaBroker => (G("eff.nested", cli[a].nest = "done") /\ G("eff.nested.res", cli[a].last.res = E.res)))
             /\ (E.e \in DOMAIN ChildBucket =>
                    G("eff.child", CurEff(a).s = E.s /\ ((E.res = "ok") <=> (E.s \in DOMAIN hnd /\ hnd[E.s].owner = a /\ hnd[E.s].kind = "addr"))))
             /\ ScriptStep(a) /\ UNCHANGED <<cur, yl>>
@@ -219,6 +223,8 @@ T_Quiescent == /\ IsEvent("quiescent")
 
 \* steps of the running task that no harness code can observe
 IsSilentLoop(a) ==
+  \/ IsBrokerType(act[a].ty)                                                  \* the broker is library code: nothing of it is logged
+  \/ InScript(a) /\ cli[a].nest = "run"                                       \* nested registry / broker operation of a handler
   \/ act[a].pc = "idle" /\ act[a].mq # <<>>                                   \* Dequeue
   \/ act[a].pc = "idle" /\ act[a].stream /\ act[a].sq.ready > 0                \* StreamItem
   \/ act[a].pc = "dequeued" /\ act[a].curp.k = "task" /\ act[a].curp.rs = "ping"   \* PingHandled
@@ -228,6 +234,7 @@ IsSilentLoop(a) ==
 T_Silent == /\ cur # None /\ ~yl /\ l' = l
             /\ \/ cur \in Actor /\ IsSilentLoop(cur) /\ RunLoop(cur)
                \/ cur \in Client /\ cli[cur].stage = "flush" /\ cli[cur].op = "call" /\ RunCont(cur)
+               \/ cur \in Client /\ cli[cur].stage = "reglock" /\ IsBrokerType(cli[cur].arg.ty) /\ RunCont(cur)   \* a Broker is spawned without a trace
                \/ cur \in DOMAIN tmr /\ (TimerStart(cur) \/ TimerFlushed(cur) \/ TimerEnd(cur)) /\ UNCHANGED <<cur, yl>>
 
 TNext == \/ T_Reset \/ T_Pick \/ T_Block \/ T_Exit \/ T_Yield \/ T_Advance \/ T_Cancel
